@@ -240,7 +240,13 @@ func (e *enc) elem(n *wire.N) {
 		e.b(n, "YourIP", 4)
 		e.b(n, "ServerIP", 4)
 		e.b(n, "GatewayIP", 4)
-		e.b(n, "ClientHWAddr", 16)
+		// chaddr: hlen bytes of address, zero-padded to 16
+		hl := int(n.U["HardwareLen"])
+		if hl > 16 {
+			hl = 16
+		}
+		e.b(n, "ClientHWAddr", hl)
+		e.buf = append(e.buf, make([]byte, 16-hl)...)
 		e.b(n, "ServerName", 64)
 		e.b(n, "File", 128)
 		e.mark(n, "magic", 4, "const")
